@@ -242,7 +242,11 @@ def rule_R3(ctx):
             for c in Q.canon_conds(P, T.dom_conds(h, SH, rb)):
                 for k in caps:
                     o = Q.oriented(c, lambda z, k=k: _field_in(z, k))
-                    if o and o[0] == "Lt" and T.has_call(o[2], "::len"):
+                    # the limited quantity is a length itself (`line.len()`, `headers.len()`), not a running total that contains one
+                    q_ = T.strip(o[2]) if o else None
+                    while q_ is not None and q_[0] == "cast":
+                        q_ = T.strip(q_[2])
+                    if o and o[0] == "Lt" and q_[0] == "call" and q_[1].endswith("::len"):
                         caps[k] = True
     for k, v in caps.items():
         ctx.check(v, "R3", "http1:" + k, "Err when count/length exceeds config.%s" % k, "HTTP/1 cap %s no longer enforced" % k, ctx.loc(h))
@@ -349,7 +353,15 @@ def rule_shared_decoder(ctx):
     C07.rule_R1(R.Retag(ctx, "C07."), "R1")
 
 
+def rule_tracker_bounded(ctx):
+    """the TCP timestamp tracker is filled through the capacity-checking insert of the cache only (shared with C19.R1/R2)"""
+    from ..engine import report as R
+    from . import C19
+    C19.rule_R1_R2(R.Retag(ctx, "C19."))
+
+
 def run(ctx):
+    rule_tracker_bounded(ctx)
     rule_shared_decoder(ctx)
     rule_alloc_sizes(ctx)
     rule_twins(ctx)
